@@ -698,6 +698,11 @@ def grammar(tier, seed):
         sympy.I * x - y, x - sympy.I * y, sympy.Rational(1, 3) * x - sympy.Rational(2, 3) * y, 0.1 * x + 0.2 * y - 0.3,
     ]:
         add(e, 4)
+    # symbol-like objects that are not plain Symbols but print differently from a Symbol of the same base name (Dummy: _x, Wild:
+    # x_), next to that Symbol in one expression: they are different unknowns and must stay different
+    dx, wx = sympy.Dummy("x"), sympy.Wild("x")
+    for e in [x - dx, x * dx + y, x**dx, sympy.exp(sympy.I * (x - dx)), sympy.cos(x) * sympy.sin(dx), x - wx, wx * x**2 + dx, dx / x]:
+        add(e, 4)
     # exponents that are not real: purely imaginary ones of modulus 1/2 (where a test on the exponent's absolute value takes them
     # for square roots), other moduli, mixed ones; as Rational and as Float
     Ih = sympy.I
